@@ -301,10 +301,9 @@ class Protocol:
         if message.TYPE == Notification.TYPE:
             raise cast(Notification, message)
 
-        if isinstance(message, Update) and Attribute.CODE.INTERNAL_DISCARD in message.data.attributes:
-            return _NOP
-        else:
-            return message
+        # RFC 7606 attribute discard: only the malformed attribute was dropped by the parser, the routes of the
+        # UPDATE (already reported to the API above) are kept with the remaining attributes
+        return message
 
     def validate_open(self) -> None:
         error: tuple[int, int, str] | None = self.negotiated.validate(self.neighbor)
